@@ -628,6 +628,47 @@ def run(chk):
         if not ok:
             chk.violation(r_cm, nm_, "UDQBinaryFunction::%s must start from udq_union(lhs, rhs) and store %s exactly where both lhs[index] and rhs[index] are defined, for every index (found start %s, combine %s, where %s)" % (nm_, comb, decl.get("result"), assigns, guards), f["file"], f["l"])
 
+    # ---- C17.state: what UDQState keeps of an evaluation
+    r_us = chk.rule("C17.state", "UDQState::add stores a defined element and REMOVES a stored value when the new element is undefined, on every storage path (per well / group / segment through add_results, and the scalar map): other quantities read earlier results from this state, so a value that is no longer defined must not linger (undefined propagates into dependent expressions)", floor=3)
+    us = chk.facts(["opm/input/eclipse/Schedule/UDQ/UDQState.cpp"])
+    paths_ = []
+    for f in us.fns:
+        if not f.get("body") or not f["file"].endswith("UDQState.cpp") or f["n"] not in ("add_results", "add"):
+            continue
+        for iff in walk(f["body"]):
+            if iff["k"] != "If" or not isinstance(iff.get("cond"), dict):
+                continue
+            c = strip(iff["cond"])
+            neg = False
+            while c.get("k") == "Un" and c.get("op") == "!":
+                neg = not neg
+                c = strip(c["c"][0])
+            m_, o_ = meth(c)
+            if m_ != "defined":
+                continue
+            t_def, t_undef = (iff.get("else"), iff["then"]) if neg else (iff["then"], iff.get("else"))
+
+            def acts(b):
+                if b is None:
+                    return []
+                out = []
+                for x in walk(b):
+                    mm, oo = meth(x)
+                    nm = mm or (x.get("fn") or "").split("::")[-1] if x["k"] in ("Call", "MCall") else None
+                    if nm in ("insert_or_assign", "add_defined_results", "emplace", "insert"):
+                        out.append("store")
+                    if nm in ("erase", "undefine_results"):
+                        out.append("remove")
+                return out
+            key = "%s%s@%d" % (f["n"], f["sig"][-40:].replace(" ", ""), iff["l"] - f["l"])
+            a_def, a_undef = acts(t_def), acts(t_undef)
+            paths_.append(key)
+            chk.instance(r_us, key, sample=dict(function=f["q"], when_defined=a_def, when_undefined=a_undef))
+            if a_def != ["store"] or a_undef != ["remove"]:
+                chk.violation(r_us, key, "%s: a defined element must be stored and an undefined one must remove what is stored (found when defined: %s, when undefined: %s): a quantity that was defined earlier and is undefined now keeps its old value in the state, and DEFINEs that refer to it are evaluated with it" % (f["q"], a_def or "nothing", a_undef or "nothing"), f["file"], iff["l"])
+    if len(paths_) < 3:
+        raise core.AnalysisBroken("UDQState: fewer than three defined/undefined decisions found (%s)" % paths_)
+
     # ---- C17.sign: the sign a node carries
     r_sg = chk.rule("C17.sign", "UDQASTNode: the sign of a (sub)expression is applied exactly once to whatever the node evaluates to (every evaluating return of eval() is sign * eval_xxx(...)), and a further sign factor is multiplied into the one already carried (scale: sign *= factor), never stored over it - so that -(-X) = X and (-X) = -X", floor=6)
     ax = chk.facts(["opm/input/eclipse/Schedule/UDQ/UDQASTNode.cpp"])
